@@ -15,7 +15,6 @@ require (
 	github.com/beorn7/perks v1.0.1 // indirect
 	github.com/chzyer/readline v1.5.1 // indirect
 	github.com/coreos/go-semver v0.3.1 // indirect
-	github.com/djherbis/atime v1.1.0 // indirect
 	github.com/dustin/go-humanize v1.0.1 // indirect
 	github.com/golang/glog v1.2.5 // indirect
 	github.com/google/shlex v0.0.0-20191202100458-e7afc7fbc510 // indirect
@@ -69,6 +68,7 @@ require (
 	github.com/bazelbuild/remote-apis v0.0.0-20260331222004-becdd8f9ff81
 	github.com/bazelbuild/remote-apis-sdks v0.0.0-20260610142741-7ffd493e6686
 	github.com/cespare/xxhash/v2 v2.3.0
+	github.com/djherbis/atime v1.1.0
 	github.com/pkg/xattr v0.4.12
 	github.com/zeebo/blake3 v0.2.4
 	google.golang.org/protobuf v1.36.11
